@@ -238,6 +238,6 @@ def run(res, tier):
         ns = sign.check(p, res, "SIGN-1", ("poulpy_core::api::operations", "poulpy_core::operations", "poulpy_cpu_ref::reference::vec_znx"))
         res.floor("SIGN-1", "add/sub family functions", ns, 4)
         res.rule("SIGN-2", "a GLWE/GGSW operation that hands a rotation exponent to a rotation kernel skips the kernel only on a test of the exponent modulo 2N (X^N = -1 is not the identity)")
-        nsk = sign.check_rotation_skips(p, res, "SIGN-2", ("poulpy_core",))
-        res.floor("SIGN-2", "core functions handing a rotation exponent to a rotation kernel", nsk, 8)
+        nsk = sign.check_rotation_skips(p, res, "SIGN-2", ("poulpy_core", "poulpy_cpu_ref::reference::vec_znx"))
+        res.floor("SIGN-2", "functions handing a rotation exponent to a rotation kernel", nsk, 10)
         res.fn_count += nc + n_ow + n2
